@@ -147,7 +147,8 @@ def compile_tu(job):
     n, headed, cxx, std, variant = job
     src_dir = os.path.join(common.BUILD_DIR, 'nfam')
     os.makedirs(src_dir, exist_ok=True)
-    name = 'n%d_%s' % (n, 'h' if headed else 'p')
+    # one file per job and process: concurrent jobs / concurrent checks must not truncate a unit another compiler is reading
+    name = 'n%d_%s-%s-%s-%s-%d' % (n, 'h' if headed else 'p', cxx.replace('+', 'x'), std.replace('+', 'x'), variant, os.getpid())
     src = os.path.join(src_dir, name + '.cpp')
     text = gen_tu(n, headed)
     with open(src, 'w') as f:
@@ -156,6 +157,16 @@ def compile_tu(job):
            '-ftemplate-depth=2048'] + facts.variant_flags(variant) + [src]
     cmd.insert(1, '-ferror-limit=0' if cxx.startswith('clang') else '-fmax-errors=0')
     p = subprocess.run(cmd, stdout=subprocess.PIPE, stderr=subprocess.STDOUT, universal_newlines=True)
+    try:
+        return _compile_tu_rest(job, cmd, p)
+    finally:
+        try:
+            os.unlink(src)
+        except OSError:
+            pass
+
+
+def _compile_tu_rest(job, cmd, p):
     for attempt in range(2):
         # a compiler that dies on a signal / internal error says nothing about the code: retry, then give up as broken
         if p.returncode in (0, 1) and 'frontend command failed' not in p.stdout and 'internal compiler error' not in p.stdout:
@@ -224,8 +235,10 @@ def results(tier):
     if any(v[0] == -99 for v in res.values()):
         _cache[tier] = res
         return res
-    with open(cache_file, 'w') as f:
+    tmp = '%s.%d.tmp' % (cache_file, os.getpid())
+    with open(tmp, 'w') as f:
         json.dump([[list(k), list(v)] for k, v in res.items()], f)
+    os.replace(tmp, cache_file)        # atomically: another check may be reading the cache
     _cache[tier] = res
     return res
 
@@ -243,10 +256,9 @@ def report(run, tier, rule_prefix):
         if rc == -99:
             raise AnalysisBroken('the compiler crashed on an N-family unit (%s): %s' % (inst, (other or ['?'])[0]))
         if rc != 0 and not failed:
-            # the unit does not compile for another reason
-            run.ob(rule_prefix, inst + ' unit type-checks', False, detail=(other or ['compiler error'])[0],
-                   key='N-family unit does not compile: ' + re.sub(r"'[^']{30,}'", "'...'", (other or ['?'])[0].split('error:')[-1])[:120])
-            continue
+            # the unit does not compile for a reason that is none of the type-level obligations: no verdict on the property (the feature
+            # matrix C19.a is what reports a library that no longer compiles)
+            raise AnalysisBroken('N-family unit does not compile (%s): %s' % (inst, re.sub(r"'[^']{30,}'", "'...'", (other or ['?'])[0].split('error:')[-1])[:160]))
         by_msg = {}
         for m in mine:
             by_msg[m] = by_msg.get(m, 0) + 1
